@@ -24,7 +24,8 @@ import (
 )
 
 type c12Job struct {
-	D         int  `json:"d"` // now - offset (clock moved without letting the rotation loop run)
+	Volume    bool `json:"volume"` // more reports / authorizations than the in-memory "recent" lists hold
+	D         int  `json:"d"`      // now - offset (clock moved without letting the rotation loop run)
 	PeerDown  bool `json:"peer_down"`
 	Datagrams bool `json:"datagrams"`
 }
@@ -97,7 +98,84 @@ func c12Requests(w *stdWorld) []httpCase {
 	return out
 }
 
+// c12Volume pushes more accepted reports and authorizations through the server than its bounded
+// "recent" lists hold (their truncation code runs only then).
+func c12Volume() *jobReport {
+	rep := &jobReport{Reasons: map[string]int{}}
+	w, err := newStdWorld("c12vol")
+	if err != nil {
+		rep.fail("harness/setup", err.Error())
+		return rep
+	}
+	poisoned := false
+	defer func() {
+		if poisoned {
+			w.Abandon()
+			return
+		}
+		if p := safely(func() { w.Close() }); p != "" {
+			rep.fail("close-panic", firstLine(p))
+		}
+		w.Cleanup()
+	}()
+	w.setNow(1000)
+	n := 0
+	for _, d := range []struct {
+		id uint32
+		k  keyPair
+	}{{1, w.A}, {2, w.B}} {
+		for ts := uint32(570); ts <= 1430; ts++ {
+			dg := signedReport(d.id, ts, 5, d.k.Priv)
+			if p := safely(func() { w.S.VerifInjectDatagram(dg) }); p != "" {
+				rep.fail("panic/datagram/volume", map[string]interface{}{"accepted_so_far": n, "panic": tailStr(p, 1500)})
+				poisoned = true
+				return rep
+			}
+			w.M.datagram(dg, w.Now)
+			n++
+			rep.Evals++
+		}
+	}
+	snap := w.S.VerifSnapshot()
+	if len(snap.RecentReports) > sc.MaxRecentReports {
+		rep.fail("recent-reports-list-unbounded", fmt.Sprintf("%d entries, limit %d", len(snap.RecentReports), sc.MaxRecentReports))
+	}
+	if sig, what := w.compareState(); sig != "" {
+		rep.fail("volume-"+sig, what)
+	}
+	for i := 0; i < sc.MaxRecentEquipmentAuths+60; i++ {
+		ea := w.signAuth(authFor(uint32(1000+i), key(fmt.Sprintf("vol%d", i%50)), 10), w.GCA.Priv)
+		ea.PublicKey[0], ea.PublicKey[1] = byte(i), byte(i>>8) // distinct keys without 1000 key derivations
+		ea = w.signAuth(ea, w.GCA.Priv)
+		var code int
+		if p := safely(func() { code, _ = w.doAuthorize(ea) }); p != "" || code != 200 {
+			rep.fail("panic-or-refusal/authorize/volume", map[string]interface{}{"authorizations_so_far": i, "code": code, "panic": tailStr(p, 1500)})
+			poisoned = p != ""
+			return rep
+		}
+		rep.Evals++
+	}
+	snap = w.S.VerifSnapshot()
+	if len(snap.RecentAuths) > sc.MaxRecentEquipmentAuths {
+		rep.fail("recent-authorizations-list-unbounded", fmt.Sprintf("%d entries, limit %d", len(snap.RecentAuths), sc.MaxRecentEquipmentAuths))
+	}
+	if sig, what := w.compareState(); sig != "" {
+		rep.fail("volume-"+sig, what)
+	}
+	if mu, smu := w.S.VerifTryLocks(); !mu || !smu {
+		rep.fail("lock-held/after-volume", nil)
+		poisoned = true
+	}
+	rep.Reasons[fmt.Sprintf("volume: %d reports, %d authorizations", n, sc.MaxRecentEquipmentAuths+60)]++
+	rep.Samples = append(rep.Samples, fmt.Sprintf("volume: %d accepted reports (list limit %d), %d authorizations (list limit %d)", n, sc.MaxRecentReports, sc.MaxRecentEquipmentAuths+60, sc.MaxRecentEquipmentAuths))
+	rep.Accepted = n
+	return rep
+}
+
 func c12Run(j c12Job) *jobReport {
+	if j.Volume {
+		return c12Volume()
+	}
 	rep := &jobReport{Reasons: map[string]int{}}
 	w, err := newStdWorld("c12")
 	if err != nil {
@@ -329,6 +407,7 @@ func init() {
 			jobs = append(jobs, c12Job{D: d, PeerDown: true, Datagrams: i < 3 || tier == "thorough"})
 		}
 		jobs = append(jobs, c12Job{D: 0, PeerDown: false, Datagrams: false})
+		jobs = append(jobs, c12Job{Volume: true})
 		sh := <-shCh
 		line := ""
 		for _, l := range strings.Split(string(sh.out), "\n") {
@@ -354,6 +433,6 @@ func init() {
 		}
 		run.Coverage["shutdown_scenarios"] = srs
 		run.Assumption("/api/v1/geo-stats is exercised only up to its parameter validation (the rest needs NASA/WattTime over the network); net/http's own shutdown bound is trusted; production-only WattTime paths cannot run offline")
-		return runJobCheck(run, "c12", jobs, "per clock configuration (now-offset in {0, 3599..3601, 4031..4033, 8064, 12000}; thorough: every value 3590..4040) with an authorized peer whose port is closed: every handler x {GET, POST, PUT} x query/body variants (absent, empty, malformed, boundary, valid, truncated JSON, wrong types, deeply nested), TCP sync requests of 0..4 bytes (+ garbage) for known/banned/unknown ids, the C01 datagram alphabet, one impact round and one rotation; after each request both mutexes must be free and GET /equipment must answer; plus Close() with 0/1/3 idle or half-sent TCP sync connections on the real sockets (violation only with a goroutine dump showing the handler blocked in its read after 4x serverShutdownTime); distinct = (handler, status) classes x configuration")
+		return runJobCheck(run, "c12", jobs, "per clock configuration (now-offset in {0, 3599..3601, 4031..4033, 8064, 12000}; thorough: every value 3590..4040) with an authorized peer whose port is closed: every handler x {GET, POST, PUT} x query/body variants (absent, empty, malformed, boundary, valid, truncated JSON, wrong types, deeply nested), TCP sync requests of 0..4 bytes (+ garbage) for known/banned/unknown ids, the C01 datagram alphabet, one impact round and one rotation; one volume run (1722 accepted reports and 1060 authorizations, more than the bounded in-memory recent lists hold); after each request both mutexes must be free and GET /equipment must answer; plus Close() with 0/1/3 idle or half-sent TCP sync connections on the real sockets (violation only with a goroutine dump showing the handler blocked in its read after 4x serverShutdownTime); distinct = (handler, status) classes x configuration")
 	}
 }
